@@ -204,3 +204,37 @@ Proof.
 Qed.
 
 End Lib.
+
+(* ---- the container impls print through the format strings of ts-rs/src/lib.rs -------------------------- *)
+(* Rust's format!: `{}` takes the next argument, `{{` and `}}` are braces *)
+Fixpoint fmt_apply (fmt : str) (args : list str) : str :=
+  match fmt with
+  | 123 :: 123 :: r => 123 :: fmt_apply r args
+  | 125 :: 125 :: r => 125 :: fmt_apply r args
+  | 123 :: 125 :: r => match args with a :: args' => a ++ fmt_apply r args' | [] => fmt_apply r [] end
+  | c :: r => c :: fmt_apply r args
+  | [] => []
+  end%N.
+
+(* what the model prints for each container around placeholder arguments A and B *)
+Definition model_format (ctor : str) : option str :=
+  let a := TVar (lit "A") in
+  let b := TVar (lit "B") in
+  if str_eqb ctor (lit "Option") then Some (print (TUnion [a; prim "null"]))
+  else if str_eqb ctor (lit "Result") then Some (print (TResult a b))
+  else if str_eqb ctor (lit "Vec") then Some (print (TArray a))
+  else if str_eqb ctor (lit "HashMap") then Some (print (TMapped a b))
+  else if str_eqb ctor (lit "Range") then Some (print (TObj OStruct [(plain_head (lit "start"), a); (plain_head (lit "end"), a)]))
+  else None.
+Definition format_args (ctor : str) : list str :=
+  if str_eqb ctor (lit "Range") then [lit "A"; lit "A"] else [lit "A"; lit "B"].
+
+(* every format literal read from the source on this run produces the text the model prints *)
+Definition lib_format_row_ok (row : str * str * str) : bool :=
+  match model_format (fst (fst row)) with
+  | Some text => str_eqb (fmt_apply (snd row) (format_args (fst (fst row)))) text
+  | None => false
+  end.
+
+Theorem lib_formats_ok : forallb lib_format_row_ok lib_formats = true /\ (9 <= length lib_formats)%nat.
+Proof. split; [vm_compute; reflexivity | vm_compute; repeat constructor]. Qed.
